@@ -573,6 +573,16 @@ func genS2N(t *rapid.T) *S2NCase {
 			pfx = strings.ToUpper(pfx)
 		}
 		c.Text = pfx + d
+		// numeric separators between the digits of a (possibly very long) prefixed literal
+		if rng(t, "rsep", 0, 5) == 0 && len(d) > 2 {
+			for n := rng(t, "rsepn", 1, 3); n > 0; n-- {
+				p := len(pfx) + rng(t, "rseppos", 1, len(c.Text)-len(pfx)-1)
+				if c.Text[p-1] != '_' && c.Text[p] != '_' {
+					c.Text = c.Text[:p] + "_" + c.Text[p:]
+				}
+			}
+			c.Class += "+separator"
+		}
 		c.Radix, c.RadixNum = "", "undefined"
 		if coin(t, "pr") {
 			c.Radix, c.RadixNum = "16", "16"
